@@ -18,6 +18,11 @@
 namespace ada::unicode {
 ada_really_inline size_t percent_encode_index(const std::string_view input,
                                               const uint8_t character_set[]) {
+#ifdef ADA_URL_ADA_VERIF
+  if (ada_verif_buggify(110)) {
+    return 0;  // a shorter clean prefix is always legal
+  }
+#endif
   const char* data = input.data();
   const size_t size = input.size();
 
